@@ -141,7 +141,7 @@ func (c *SCIONClient) measureClockOffsetSCION(ctx context.Context, mtrcs *scionC
 
 	laddr, ok := netip.AddrFromSlice(localAddr.Host.IP)
 	if !ok {
-		return time.Time{}, 0, err
+		return time.Time{}, 0, errUnexpectedAddrType
 	}
 	var lc net.ListenConfig
 	pconn, err := lc.ListenPacket(ctx, "udp", netip.AddrPortFrom(laddr, 0).String())
@@ -176,6 +176,10 @@ func (c *SCIONClient) measureClockOffsetSCION(ctx context.Context, mtrcs *scionC
 			return time.Time{}, 0, err
 		}
 		remoteAddr.Host.IP = net.ParseIP(ntskeData.Server)
+		if remoteAddr.Host.IP == nil {
+			c.Log.LogAttrs(ctx, slog.LevelInfo, "failed to parse key exchange data: unexpected server address")
+			return time.Time{}, 0, errUnexpectedAddrType
+		}
 		remoteAddr.Host.Port = int(ntskeData.Port)
 		if remoteAddr.IA == localAddr.IA {
 			path = spath.Path{
